@@ -11,11 +11,16 @@ Tie to /repo:
       adjoint scaling are run on the real code and through lean/Drivers/C18.lean on the same
       inputs; exact comparison where float arithmetic is exact (grids' shapes, (-1)^k factors,
       axis lengths 1/2/4 with integer data, slices), DESIGN §4 tolerance otherwise.
+      Round 4: the `adjoint` property of the plain DFT operators (model dftAdjointNd, op `dftadj`:
+      values, NotImplementedError for exponents != 2, and the ratio N of C18.dft_true_adjoint between
+      <op u, v> and <u, op.adjoint v>) and the default-range construction (op `dftrangector`,
+      one-point axes: finding F18g).
 ORACLE (independent of the model, on the real code): numpy.fft on the raw arrays, the direct
 O(n^2) sum of the Fourier integral discretisation, inverse(forward(x)) = x, numpy vs pyfftw,
 in-place vs out-of-place, plan/temporary reuse, stride = 2π/(n s), prefix property of the
 half-complex grid, W^-1(W(x)) = x, layout of W(x) against pywt.wavedecn with the DOCUMENTED
-mode table, adjoint identity.  Gaussian convergence is a labelled TEST.
+mode table, adjoint identity; DFT adjoint: exposed for exponent 2, equal to op.inverse (as
+documented) and op.adjoint(op(u)) = u.  Gaussian convergence is a labelled TEST.
 """
 import itertools
 import warnings
